@@ -887,7 +887,16 @@ impl TypeChecker {
                             );
                         }
 
-                        if ctx.inside_pure && !matches!(purity, Purity::Pure) {
+                        if ctx.inside_pure && matches!(purity, Purity::Undefined) {
+                            // A purity that is still open is settled by the call - like a
+                            // callee that is not known yet.
+                            let called = self.push_type(Type::Function(
+                                params.clone(),
+                                ret_ty,
+                                Purity::Pure,
+                            ));
+                            self.unify(*span, ctx, function, called)?;
+                        } else if ctx.inside_pure && !matches!(purity, Purity::Pure) {
                             return err_type_error!(
                                 self,
                                 *span,
